@@ -1,8 +1,10 @@
 package optable
 
 import (
+	"fmt"
 	"math/big"
 	"reflect"
+	"sort"
 	"strings"
 	"unsafe"
 )
@@ -15,7 +17,7 @@ import (
 // "buf", "tmp" or "pool" (BuffQP, BuffCt, BuffInvNTT, BuffDecompQP, BuffBitDecomp, buffQ, buffQMul,
 // buffP, bufQ, bufT, bufB, buff, buffCmplx, buffQP, bufSkIn, bufSkOut, buf, tmp0.., poolMod2N), plus
 // the ckks encoder's bigintCoeffs and the mpckks protocols' maskBigint / ssBigint (scratch by their use:
-// overwritten at the start of every call that reads them).
+// overwritten at the start of every call that reads them), and the blind-rotation evaluator's accumulator.
 // Everything reachable below such a field is filled; nothing else is touched. The walk does not enter
 // rings, parameters, keys, samplers or PRNGs (read-only or stateful-by-design objects).
 
@@ -30,7 +32,7 @@ const (
 func isScratchName(n string) bool {
 	l := strings.ToLower(n)
 	return strings.HasPrefix(l, "buf") || strings.HasPrefix(l, "tmp") || strings.HasPrefix(l, "pool") ||
-		n == "bigintCoeffs" || n == "maskBigint" || n == "ssBigint"
+		n == "bigintCoeffs" || n == "maskBigint" || n == "ssBigint" || n == "accumulator"
 }
 
 // types the search never enters
@@ -101,6 +103,15 @@ func (f *filler) search(v reflect.Value, path string) {
 			switch fld.Type.Kind() {
 			case reflect.Ptr, reflect.Struct, reflect.Interface:
 				f.search(v.Field(i), p)
+			case reflect.Map: // e.g. RingPackingEvaluator.Evaluators: one evaluator per ring degree
+				if ek := fld.Type.Elem().Kind(); ek == reflect.Ptr || ek == reflect.Interface {
+					m := open(v.Field(i))
+					keys := m.MapKeys()
+					sort.Slice(keys, func(a, b int) bool { return keyLess(keys[a], keys[b]) })
+					for _, k := range keys {
+						f.search(addressable(m.MapIndex(k)), p+fmt.Sprintf("[%v]", k))
+					}
+				}
 			}
 		}
 	}
